@@ -12,6 +12,14 @@ TRUSTED_BASE = [
 NOT_YET = {}
 
 PROPS = {
+    "C04": {
+        "modules": ["Mcp.Props.C04"],
+        "components": ["session"],
+        "technique": "Lean 4 theorems (table invariant by induction over histories, refinement of the live set to 'issued minus deleted', per-step refusal lemmas, hex injectivity) over a state-machine model of handlePost/handleGet/handleDelete; id-generator facts regenerated from source; differential run of enumerated and random HTTP histories against the model",
+        "level_text": "Proof: for every finite history over {initialize, request, notification, response-post, GET, stream-close, DELETE} x {no id, live, deleted, never-issued id} in stateful / stateless / session-disabled configurations the model's session table satisfies: ids issued only by initialize-without-id, fresh, bound until deleted, 400 for a missing id, 404 (and no state change) for unknown ids, DELETE ends session and stream, stateless never issues/needs an id and answers independently of history, and the reported live set equals issued-minus-deleted (refinement theorem). The model is tied to the code by running the same histories against the real handler (httptest) and diffing status, id header, closed streams and GetActiveSessions after every step, and by regenerated facts about generateSessionID (16 bytes, crypto/rand, hex).",
+        "level_note": "Clock-free: the 1 h expiry sweep is outside the model. That two 128-bit draws differ is a cryptographic assumption. Trusts the Lean kernel, the extractor, the harness.",
+        "assumptions": ["time-based session expiry is not modelled (histories run far below one hour)", "uniqueness of random ids is a cryptographic assumption; proved: injective visible-ASCII rendering of >=128 bits from crypto/rand"],
+    },
     "C17": {
         "modules": ["Mcp.Props.C17"],
         "components": ["retry"],
